@@ -11,6 +11,7 @@
 -/
 import Bcder.Props.C09
 import Bcder.Props.C06
+import Bcder.Props.C14
 namespace Bcder.Props.C04
 open Bcder Bcder.Spec Prog Bcder.Props.C02 Bcder.Props.C09
 
@@ -224,5 +225,148 @@ theorem frame_definite (c : Cons) (cls num : Nat) (b : Bool) (hc : cls ≤ 3) (h
         | ok r2 =>
           obtain ⟨u, g4⟩ := r2
           simp only [Nat.sub_sub]
+
+
+/-! ### the round-trip algebra -/
+
+/-- `dec` reads exactly the octets `bytes` and returns `v`, in every context that has not ended, with
+    anything following, leaving the `Constructed` as it was and the limit reduced by `bytes.length` -/
+def RT (m : Mode) (bytes : Bytes) (dec : Cons → Prog (β × Cons)) (v : β) : Prop :=
+  ∀ (c : Cons) (tail : Bytes) (lim : Option Nat), c.mode = m → c.state ≠ .done →
+    (c.state = .definite → lim ≠ none) → (∀ l, lim = some l → bytes.length ≤ l) →
+    runG0 (dec c) (St (bytes ++ tail) lim) = .ok ((v, c), St tail (lim.map (· - bytes.length)))
+
+/-- a primitive closure that decodes the content `cnt` to `v` (and consumes all of it) -/
+def PrimDecodes (p : Prog α) (cnt : Bytes) (v : α) : Prop :=
+  ∀ tail, C14.primRun p cnt tail = .ok (v, St tail (some 0))
+
+theorem primRun_unfold (p : Prog α) (c rest : Bytes) :
+    C14.primRun p c rest = match runG0 p (St (c ++ rest) (some c.length)) with
+      | .error e => .error e
+      | .ok (a, g') => match runG0 limitedExhausted g' with
+        | .error e => .error e
+        | .ok (_, g'') => .ok (a, g'') := by
+  unfold C14.primRun
+  simp only [runG0_bind]
+  cases runG0 p (St (c ++ rest) (some c.length)) with
+  | error e => rfl
+  | ok r =>
+    obtain ⟨a, g'⟩ := r
+    simp only
+    cases runG0 limitedExhausted g' with
+    | error e => rfl
+    | ok r2 => rfl
+
+/-- **Primitive values round-trip through their framing**: optional tag-selective read -/
+theorem rt_prim_opt (m : Mode) (cls num : Nat) (hc : cls ≤ 3) (hn : num ≤ 0x1fffff) (hne : ¬ (cls = 0 ∧ num = 0))
+    (p : Prog α) (cnt : Bytes) (v : α) (hlen : cnt.length < 2 ^ 32) (hp : PrimDecodes p cnt v) :
+    RT m (hdrOctets cls false num cnt.length ++ cnt)
+      (fun c => takeOptPrimitiveIf c (C12.tagOf cls num) (fun md => do let a ← p; pure (a, md))) (some v) := by
+  intro c tail lim hm hnd hdef hcov
+  unfold takeOptPrimitiveIf
+  have hcov' : ∀ l, lim = some l → (hdrOctets cls false num cnt.length).length + cnt.length ≤ l := by
+    intro l hl; have := hcov l hl; simpa using this
+  rw [List.append_assoc] at *
+  have hf := frame_definite c cls num false hc hn hne
+    (fun _ => asPrimitive (fun md => do let a ← p; pure (a, md))) cnt tail hlen lim hnd hdef hcov'
+  rw [List.append_assoc] at hf
+  rw [hf]
+  unfold frameResult
+  simp only [Bool.false_and, Bool.false_eq_true, if_false]
+  have h1 := hp tail
+  rw [primRun_unfold] at h1
+  simp only [asPrimitive, runG0_bind]
+  cases hr : runG0 p (St (cnt ++ tail) (some cnt.length)) with
+  | error e => rw [hr] at h1; cases h1
+  | ok r =>
+    obtain ⟨a, g'⟩ := r
+    rw [hr] at h1
+    simp only at h1
+    simp only [runG0_pure, Content.exhausted]
+    cases hx : runG0 limitedExhausted g' with
+    | error e => rw [hx] at h1; cases h1
+    | ok r2 =>
+      obtain ⟨u, g''⟩ := r2
+      rw [hx] at h1
+      simp only [Except.ok.injEq, Prod.mk.injEq] at h1
+      obtain ⟨ha, hg⟩ := h1
+      subst ha; subst hg
+      simp [List.length_append, Nat.add_comm]
+
+/-- the mandatory reader over a round-tripping optional one -/
+theorem rt_mandatory (m : Mode) (bytes : Bytes) (dec : Cons → Prog (Option β × Cons)) (v : β)
+    (h : RT m bytes dec (some v)) : RT m bytes (fun c => mandatory (dec c)) v := by
+  intro c tail lim hm hnd hdef hcov
+  rw [mandatory_run, h c tail lim hm hnd hdef hcov]
+
+theorem rt_prim (m : Mode) (cls num : Nat) (hc : cls ≤ 3) (hn : num ≤ 0x1fffff) (hne : ¬ (cls = 0 ∧ num = 0))
+    (p : Prog α) (cnt : Bytes) (v : α) (hlen : cnt.length < 2 ^ 32) (hp : PrimDecodes p cnt v) :
+    RT m (hdrOctets cls false num cnt.length ++ cnt)
+      (fun c => takePrimitiveIf c (C12.tagOf cls num) (fun md => do let a ← p; pure (a, md))) v :=
+  rt_mandatory m _ _ v (rt_prim_opt m cls num hc hn hne p cnt v hlen hp)
+
+/-- nothing to read -/
+theorem rt_nil (m : Mode) : RT m [] (fun c => (pure ((), c) : Prog (Unit × Cons))) () := by
+  intro c tail lim _ _ _ _
+  cases lim <;> simp
+
+/-- **sequencing**: fields written one after the other are read one after the other -/
+theorem rt_seq (m : Mode) (b1 b2 : Bytes) (d1 : Cons → Prog (β × Cons)) (d2 : Cons → Prog (γ × Cons))
+    (v1 : β) (v2 : γ) (h1 : RT m b1 d1 v1) (h2 : RT m b2 d2 v2) :
+    RT m (b1 ++ b2) (fun c => do let (a, c1) ← d1 c; let (b, c2) ← d2 c1; pure ((a, b), c2)) (v1, v2) := by
+  intro c tail lim hm hnd hdef hcov
+  simp only [runG0_bind]
+  rw [List.append_assoc]
+  rw [h1 c (b2 ++ tail) lim hm hnd hdef (by intro l hl; have := hcov l hl; simp at this; omega)]
+  simp only
+  rw [h2 c tail (lim.map (· - b1.length)) hm hnd
+    (by intro hs; cases lim with | none => exact absurd rfl (hdef hs) | some l => simp)
+    (by
+      intro l hl
+      cases lim with
+      | none => simp at hl
+      | some l0 =>
+        simp at hl; subst hl
+        have := hcov l0 rfl
+        simp at this; omega)]
+  simp only [runG0_pure]
+  cases lim <;> simp [Nat.sub_sub]
+
+/-- mapping the result -/
+theorem rt_map (m : Mode) (b : Bytes) (d : Cons → Prog (β × Cons)) (v : β) (f : β → γ) (h : RT m b d v) :
+    RT m b (fun c => do let (a, c1) ← d c; pure (f a, c1)) (f v) := by
+  intro c tail lim hm hnd hdef hcov
+  simp only [runG0_bind, h c tail lim hm hnd hdef hcov, runG0_pure]
+
+
+/-- **Constructed values (definite length: BER, DER) round-trip** if their content does -/
+theorem rt_cons_opt (m : Mode) (hm : m ≠ .cer) (cls num : Nat) (hc : cls ≤ 3) (hn : num ≤ 0x1fffff)
+    (hne : ¬ (cls = 0 ∧ num = 0)) (ib : Bytes) (dec : Cons → Prog (β × Cons)) (v : β)
+    (hlen : ib.length < 2 ^ 32) (hin : RT m ib dec v) :
+    RT m (hdrOctets cls true num ib.length ++ ib)
+      (fun c => takeOptConstructedIf c (C12.tagOf cls num) dec) (some v) := by
+  intro c tail lim hmode hnd hdef hcov
+  unfold takeOptConstructedIf
+  have hcov' : ∀ l, lim = some l → (hdrOctets cls true num ib.length).length + ib.length ≤ l := by
+    intro l hl; have := hcov l hl; simpa using this
+  have hf := frame_definite c cls num true hc hn hne
+    (fun _ => asConstructed dec) ib tail hlen lim hnd hdef hcov'
+  rw [hf]
+  unfold frameResult
+  have hcer : (true && c.mode == .cer) = false := by
+    rw [hmode]; cases m <;> simp at hm ⊢
+  simp only [hcer, Bool.false_eq_true, if_false, if_true]
+  have hi := hin ⟨.definite, c.mode⟩ tail (some ib.length) hmode (by simp) (by simp)
+    (by intro l hl; cases hl; exact Nat.le_refl _)
+  simp only [asConstructed, runG0_bind, hi, Option.map, Nat.sub_self, runG0_pure, Content.exhausted,
+    Cons.exhausted, run_limitedExhausted, if_true]
+  simp [List.length_append, Nat.add_comm]
+
+theorem rt_cons (m : Mode) (hm : m ≠ .cer) (cls num : Nat) (hc : cls ≤ 3) (hn : num ≤ 0x1fffff)
+    (hne : ¬ (cls = 0 ∧ num = 0)) (ib : Bytes) (dec : Cons → Prog (β × Cons)) (v : β)
+    (hlen : ib.length < 2 ^ 32) (hin : RT m ib dec v) :
+    RT m (hdrOctets cls true num ib.length ++ ib)
+      (fun c => takeConstructedIf c (C12.tagOf cls num) dec) v :=
+  rt_mandatory m _ _ v (rt_cons_opt m hm cls num hc hn hne ib dec v hlen hin)
 
 end Bcder.Props.C04
